@@ -85,10 +85,6 @@ class Registry:
 
 
 def loop_ordinal(fnode, st):
-    k = 0
-    for n in ast.walk(fnode):
-        if isinstance(n, (ast.For, ast.While)):
-            pass
     # deterministic source order
     loops = [n for n in ast.walk(fnode) if isinstance(n, (ast.For, ast.While))]
     loops.sort(key=lambda n: (n.lineno, n.col_offset))
@@ -491,8 +487,9 @@ def verify_config(I, c, fn, specf, cfg):
             oname = "%s#%d:raises-table (%s)" % (tag, k, real.describe())
             try:
                 conds = {}
+                Sold, old = build_args(I, c, cfg)
                 for ecls, text in c.raises.items():
-                    conds[ecls] = I.pure(S.expr_fn(text, [], dict(args1)))
+                    conds[ecls] = I.pure(S.expr_fn(text, [], dict(args1, old=old)))
                 if real.kind == "raise":
                     en = real.exc.cls.name
                     if en not in conds:
@@ -525,6 +522,8 @@ def verify_config(I, c, fn, specf, cfg):
                 continue
             env = dict(args1)
             env["result"] = real.value
+            if "old[" in text:
+                env["old"] = build_args(I, c, cfg)[1]
             try:
                 f = S.expr_fn(text, [], env)
                 g = I.pure(f)
